@@ -66,6 +66,8 @@ type ReqSpec struct {
 	Timeout   string      `json:"timeout,omitempty"`
 	PingPong  bool        `json:"ping_pong,omitempty"`
 	TwinOf    int         `json:"twin_of,omitempty"`   // C10: the same call script run directly against the backend (not through larking)
+	Poison    bool        `json:"poison,omitempty"` // gRPC: one frame flagged compressed whose payload is not gzip at all (this request is expected to fail; it is there for what it does to shared state)
+	Slash     bool        `json:"trailing_slash,omitempty"` // plain HTTP: the URL ends in "/" (the mux trims it before routing)
 	LateClose bool        `json:"late_close,omitempty"` // the client half-closes only after it has seen the call end (it waits for the server's verdict first)
 	Handler   HandlerSpec `json:"handler"`
 	Fault     ReqFault    `json:"fault"`
@@ -180,7 +182,15 @@ func (r *reqState) handlerSpec(tag string) *HandlerSpec { return &r.spec.Handler
 // log is the log of the handler that runs this request's script: the local
 // one, or the backend's when the method is proxied.
 func (r *reqState) log() *HLog {
-	if r.spec.Backend != "" || len(r.servedBy) > 0 && r.servedBy[0] != "local" {
+	if len(r.servedBy) > 0 {
+		// whoever actually ran the script (a method may have a local handler
+		// and a backend at the same time)
+		if r.servedBy[0] == "local" {
+			return &r.hlog
+		}
+		return &r.blog
+	}
+	if r.spec.Backend != "" {
 		return &r.blog
 	}
 	return &r.hlog
@@ -208,7 +218,7 @@ func (r *reqState) Enabled(op int) bool {
 			k++
 		}
 		log := &r.hlog
-		if r.spec.Backend != "" {
+		if r.blog.mEntered {
 			log = &r.blog
 		}
 		if n := len(r.spec.Handler.Resps); k > n {
@@ -220,7 +230,7 @@ func (r *reqState) Enabled(op int) bool {
 		// the handler has sent its k-th answer AND those bytes have been
 		// flushed to the client (a local handler's writes go through the
 		// simulated net/http buffer; a backend's through grpc-go)
-		return log.sentMirror() >= k && (r.spec.Backend != "" || r.q.mFlushed >= log.sentMark(k))
+		return log.sentMirror() >= k && (log == &r.blog || r.q.mFlushed >= log.sentMark(k))
 	case opConsume:
 		return r.q.mOut > r.q.mConsumed
 	case opClose:
@@ -254,7 +264,17 @@ func (r *reqState) clientMsg(i int) proto.Message {
 	if r.method.mkBody != nil && r.spec.Proto == "http" {
 		return r.method.mkBody(p)
 	}
-	return r.method.mkReq(p, "")
+	m := r.method.mkReq(p, "")
+	if r.unknownField(i) {
+		withUnknown(m, r.spec.Msgs[i].Seed)
+	}
+	return m
+}
+
+// unknownField: only where the undeclared field can travel (binary protobuf
+// of the whole request message).
+func (r *reqState) unknownField(i int) bool {
+	return r.spec.Msgs[i].Unknown && r.spec.Codec == "proto" && r.spec.Proto != "ws" && !(r.method.mkBody != nil && r.spec.Proto == "http")
 }
 
 // expectedReq is the message the handler must see for client message i.
@@ -264,7 +284,11 @@ func (r *reqState) expectedReq(i int) proto.Message {
 	if i == 0 && (r.spec.Proto == "http" || r.spec.Proto == "ws") {
 		pv = r.boundPathVar()
 	}
-	return r.method.mkReq(p, pv)
+	m := r.method.mkReq(p, pv)
+	if r.unknownField(i) {
+		withUnknown(m, r.spec.Msgs[i].Seed)
+	}
+	return m
 }
 
 func (r *reqState) boundPathVar() string {
@@ -325,6 +349,11 @@ func (r *reqState) encode() {
 		for i := range sp.Msgs {
 			w = wire.GRPCFrame(w, marshalMsg(sp.Codec, r.clientMsg(i)), sp.Compress && !sp.Msgs[i].Plain)
 			r.bounds = append(r.bounds, len(w))
+		}
+		if sp.Poison {
+			junk := patternBytes(uint64(sp.ID)+77, 40)
+			w = append(w, 1, 0, 0, 0, byte(len(junk)))
+			w = append(w, junk...)
 		}
 		if sp.Proto == "grpcwebtext" {
 			// one continuous base64 stream; bounds move to the first offset
@@ -410,6 +439,9 @@ func (r *reqState) encode() {
 		case "away":
 			w = append(w, wire.WSClientClose(ws.StatusGoingAway, "bye", [4]byte{4, 3, 2, 1})...)
 		}
+	}
+	if sp.Slash && sp.Proto == "http" {
+		path += "/"
 	}
 	r.wire = w
 	r.end = len(w)
